@@ -88,6 +88,9 @@ pub struct Scenario {
     /// connectors on the listener's own host draw their local ports from that very range
     #[serde(default)]
     pub lport_eph: bool,
+    /// IPv6 simulations only, wildcard binds only: loopback connectors dial 127.0.0.1 instead of ::1
+    #[serde(default)]
+    pub lo4: bool,
 }
 
 pub struct C12;
@@ -218,7 +221,10 @@ fn gen_scenario(rng: &mut Rng) -> Scenario {
                 // hold, then repair (which does not let go of what the hold kept back), then release
                 script.push((s1, LinkAct::Hold(h, 0)));
                 script.push((s2, LinkAct::Repair(h, 0)));
-                script.push((s2 + rng.range(1, 6 + 2 * lat) as u32, LinkAct::Release(h, 0)));
+                // ... or no release at all: what was kept back stays there, but the link works again
+                if rng.chance(2, 3) {
+                    script.push((s2 + rng.range(1, 6 + 2 * lat) as u32, LinkAct::Release(h, 0)));
+                }
             } else if part {
                 script.push((s1, if rng.chance(1, 2) { LinkAct::Partition(h, 0) } else { LinkAct::PartitionOneway(h, 0) }));
                 if rng.chance(3, 4) {
@@ -231,7 +237,8 @@ fn gen_scenario(rng: &mut Rng) -> Scenario {
         }
         script.sort_by_key(|(s, _)| *s);
     }
-    Scenario { cfg, guarded, hosts, lops, conns, script, lport_eph: rng.chance(1, 6) }
+    let lo4 = cfg.ipv6 && rng.chance(1, 3) && !lops.iter().any(|o| matches!(o, LOp::Bind { localhost: true }));
+    Scenario { cfg, guarded, hosts, lops, conns, script, lport_eph: rng.chance(1, 6), lo4 }
 }
 
 // ------------------------------------------------------------------------------------------------
@@ -282,6 +289,7 @@ struct Sh {
     hosts: usize,
     ipv6: bool,
     lport: u16,
+    lo4: bool,
 }
 
 impl Sh {
@@ -398,7 +406,7 @@ async fn connector(sh: Sh, x: usize, c: Connector) {
             (Target::Unowned, _) => TcpStream::connect((unowned(ipv6), port)).await,
             (_, Via::Ip) => TcpStream::connect((host_ip(0, ipv6), port)).await,
             (_, Via::Name) => TcpStream::connect((host_name(0), port)).await,
-            (_, Via::Loopback) => TcpStream::connect((loopback(ipv6), port)).await,
+            (_, Via::Loopback) => TcpStream::connect((loopback(ipv6 && !sh2.lo4), port)).await,
         }
     };
     let r = match c.timeout {
@@ -509,6 +517,7 @@ fn execute(sc: &Scenario, keep: bool) -> (Report, Option<Outcome>) {
         hosts: sc.hosts,
         ipv6: sc.cfg.ipv6,
         lport: if sc.lport_eph { 49152 } else { LPORT },
+        lo4: sc.lo4,
     };
     let scr = Rc::new(sc.clone());
     let cap = step_cap(sc);
@@ -1190,7 +1199,11 @@ fn judge(sc: &Scenario, o: &Outcome, probes: &mut Counters) -> (Option<Violation
             continue;
         }
         let held_at_call = dir_state(recs, c.host, ci[x].start_t3) == DirState::Held;
-        let released_later = recs.iter().any(|r| r.t3 > ci[x].start_t3 && matches!(&r.ev, Ev::Act(LinkAct::Release(a, b)) if (*a == c.host && *b == 0) || (*a == 0 && *b == c.host)));
+        // a release after the *last* hold of that link (a hold right after a release takes the released messages back,
+        // and a repair alone never lets go of them)
+        let on_link = |a: &usize, b: &usize| (*a == c.host && *b == 0) || (*a == 0 && *b == c.host);
+        let last_hold = recs.iter().rposition(|r| matches!(&r.ev, Ev::Act(LinkAct::Hold(a, b)) if on_link(a, b)));
+        let released_later = recs.iter().enumerate().any(|(i, r)| r.t3 > ci[x].start_t3 && last_hold.map(|h| i > h).unwrap_or(true) && matches!(&r.ev, Ev::Act(LinkAct::Release(a, b)) if on_link(a, b)));
         let partition_later = recs.iter().any(|r| r.t3 > ci[x].start_t3 && matches!(&r.ev, Ev::Act(a) if a.is_partition()));
         if held_at_call && released_later && !partition_later && dir_state(recs, c.host, u64::MAX) == DirState::Healthy && end_step > step_of(last_act_t3) + lat + 3 {
             probes.inc("held_request_released_judged");
@@ -1198,6 +1211,29 @@ fn judge(sc: &Scenario, o: &Outcome, probes: &mut Counters) -> (Option<Violation
                 Some(Violation::new(
                     "Hang",
                     format!("connector {x}: its request was kept back by a hold (call at step {}), the link was released before step {}, yet the request never reached h0 and the connect is still pending at step {end_step}", step_of(ci[x].start_t3), step_of(last_act_t3)),
+                )),
+                false,
+            );
+        }
+    }
+
+    // ---- a request sent over a link that is healthy from then on must reach the listener's host ----
+    for x in 0..n {
+        let c = &sc.conns[x];
+        if ci[x].res != Res::Pending || !ci[x].started || c.host == 0 || c.target == Target::Unowned || ci[x].arr.is_some() || ci[x].arr_unknown || ci[x].lost_t3.is_some() {
+            continue;
+        }
+        let on_link = |a: &LinkAct| {
+            let (p, q) = a.hosts();
+            (p == c.host && q == 0) || (p == 0 && q == c.host)
+        };
+        let touched_later = recs.iter().any(|r| r.t3 >= ci[x].start_t3 && matches!(&r.ev, Ev::Act(a) if on_link(a)));
+        if dir_state(recs, c.host, ci[x].start_t3) == DirState::Healthy && !touched_later && end_step > step_of(ci[x].start_t3) + lat + 3 {
+            probes.inc("request_on_healthy_link_judged");
+            return (
+                Some(Violation::new(
+                    "Hang",
+                    format!("connector {x}: its request left h{} at step {} over a link that was healthy then (after every hold / partition had been repaired or released) and was not touched again, yet it never reached h0 and the connect is still pending at step {end_step}", c.host, step_of(ci[x].start_t3)),
                 )),
                 false,
             );
